@@ -457,7 +457,7 @@ Record dmsg := mkMsg { m_t : option (list N); m_y : option (list N); m_q : optio
 Inductive derr :=
 | E_no_tid | E_tid_long | E_no_type | E_unsupported_type | E_bad_id | E_id_short | E_own_id
 | E_unknown_type | E_malformed | E_target_short | E_no_nodes | E_ih_short | E_no_peers_nodes
-| E_token | E_unknown_query.
+| E_token | E_unknown_query | E_port.
 
 (* what goes back to the source address: nothing, a "y":"e" message, or a "y":"r" message whose
    r.id is the own id *)
@@ -488,7 +488,7 @@ Inductive res :=
 | Rskip
 | Rbool (b : bool)
 | Rtok (t : list N)
-| Rerr (code : N)                 (* 1 Token invalid.  2 No peers nor nodes  3 No nodes *)
+| Rerr (code : N)                 (* 1 Token invalid.  2 No peers nor nodes  3 No nodes  4 Invalid port. *)
 | Rnodes (l : list centry)
 | Rpeers (tok : list N) (vals : list (list N))
 | Rpnodes (tok : list N) (l : list centry)
@@ -579,11 +579,12 @@ Definition query_body (s : state) (ip rnd : N) (q : list N) (m : dmsg)
            | Some tk =>
              if negb (token_valid s tk ip) then (s, inl E_token)
              else let ih := be_to_N (firstn idbytes h) in
-                  (* get_tracker(create = true) happens before a.port is looked at *)
+                  (* a.port is checked before get_tracker(create = true) *)
                   match m_port m with
-                  | PInt z => (with_trackers s (upd_tracker ih (add_peer (now s) ip (Z.to_N (z mod 65536))) (trackers s)),
-                               inr (None, None, None))
-                  | _ => (with_trackers s (upd_tracker ih (fun l => l) (trackers s)), inl E_malformed)
+                  | PInt z => if ((z <? 1) || (65535 <? z))%Z then (s, inl E_port)
+                              else (with_trackers s (upd_tracker ih (add_peer (now s) ip (Z.to_N z)) (trackers s)),
+                                    inr (None, None, None))
+                  | _ => (s, inl E_malformed)
                   end
            end
     end
@@ -647,7 +648,8 @@ Definition step (s : state) (o : op) : state * res :=
   | OTokenValid tok ip => (s, Rbool (token_valid s tok ip))
   | OAnnounce ih ip port tok =>
     if token_valid s tok ip
-    then (with_trackers s (upd_tracker ih (add_peer (now s) ip port) (trackers s)), Rnone)
+    then if (port <? 1) || (65535 <? port) then (s, Rerr 4)
+         else (with_trackers s (upd_tracker ih (add_peer (now s) ip port) (trackers s)), Rnone)
     else (s, Rerr 1)
   | OGetPeers ih ip rnd =>
     let tok := token_for (cur s) ip in
